@@ -19,7 +19,7 @@ def gen_build_spec(g, spec, box, kinds, est_size=0.6):
     blocks = []
     names = sorted({m["name"] for m in inst})
     g.shuffle(names)
-    for name in names[: g.randint(1, len(names))]:
+    for name in (names if kinds == ["dist"] else names[: g.randint(1, len(names))]):
         idxs = [i for i, m in enumerate(inst) if m["name"] == name]
         mt = inst[idxs[0]]
         nres = len(mt["residues"])
